@@ -11,6 +11,9 @@ use unimock::*;
 
 #[derive(Debug, Clone, PartialEq)]
 pub enum E { A, B(u8), C { x: u8 } }
+/// a condition on outside state (kept opaque to the optimiser and to the macro)
+#[inline(never)]
+fn outside(v: bool) -> bool { std::hint::black_box(v) }
 fn dom_int() -> Vec<u8> { vec![0, 1, 2, 3] }
 fn dom_opt() -> Vec<Option<u8>> { vec![None, Some(0), Some(1), Some(2)] }
 fn dom_str() -> Vec<String> { vec!["".into(), "a".into(), "b".into(), "ab".into()] }
@@ -116,6 +119,8 @@ def guard_text(g):
         return "*%s == %d || *%s == %d" % (g["x"], g["k1"], g["x"], g["k2"])
     if g["g"] == "ne2":
         return "%s != %s" % (g["x"], g["y"])
+    if g["g"] == "ext":
+        return "outside(%s)" % ("true" if g["v"] else "false")
     return None
 
 
